@@ -3,6 +3,8 @@
 import SmppVerif.Model.Wire
 import SmppVerif.Model.Keeper
 import SmppVerif.Model.Supervisor
+import SmppVerif.Model.Receiver
+import SmppVerif.Model.DriverPdu
 
 namespace SmppVerif.DriverSession
 open SmppVerif SmppVerif.Wire
@@ -33,6 +35,14 @@ def showEv : Supervisor.Ev → String
 
 def step (ws : List String) : Option String :=
   match ws with
+  | ["rx", dflt, hex] =>
+    match DriverPdu.parseEnc dflt, parseHex hex with
+    | some d, some b =>
+      some (match Receiver.receive b d with
+        | .respond c st sq => s!"respond {c} {st} {sq}"
+        | .ignore => "ignore"
+        | .escape _ => "escape")
+    | _, _ => some "bad-op"
   | "sup" :: mn :: inc :: stop :: lat :: gs :: outs =>
     match mn.toNat?, inc.toNat?, lat.toNat?, gs.toNat?, outs.mapM parseOutcome with
     | some mn, some inc, some lat, some gs, some outs =>
